@@ -33,7 +33,9 @@ REQUIRED_BRANCHES = ['conv_inside', 'conv_knot', 'conv_above', 'conv_below_error
                      'hist_conv_after_error', 'hist_conv_after_flux', 'hist_conv_after_both', 'hist_conv_after_apertures',
                      'hist_conv_repeat_interp', 'hist_sed_after_flux', 'hist_sed_var_after_flux',
                      'conv_knot_other_unit', 'sed_knot_other_unit', 'var_knot_other_unit', 'conv_empty_request',
-                     'sed_empty_request', 'var_single_filter', 'conv_flux_err_units_differ', 'sed_flux_other_unit']
+                     'sed_empty_request', 'var_single_filter', 'conv_flux_err_units_differ', 'sed_flux_other_unit',
+                     'conv_names_blank_or_bytes', 'conv_huge_range', 'sed_huge_range', 'conv_first_knot_exact',
+                     'sed_first_knot_exact']
 ASSUMPTIONS = ['IEEE rounding is not modelled: values are compared with a rounding budget of 1e-9 relative + 1e-12 x the '
                'largest tabulated magnitude of the row (linear interpolation between very different values cancels)',
                'unit conversion is not modelled: requests given in another unit than the table are sent to the model after '
@@ -100,6 +102,37 @@ def pick_kinds(rng, n, allow_below):
 
 
 FLUX_UNITS = ['mJy', 'Jy', 'uJy']
+NAME_STYLES = ['plain', 'trail', 'lead', 'both', 'str_pad', 'bytes_pad', 'bytes']
+
+
+def growth_row(rng, n):
+    """a curve of growth: increasing over apertures, spanning 1e15..1e18 between the smallest and the largest"""
+    y0 = nice(rng, 1e-6, 1e-2, 3)
+    span = rng.uniform(15., 18.)
+    if n == 1:
+        return [y0]
+    return [y0] + [float('%.4g' % (y0 * 10 ** (span * (i + rng.uniform(-0.3, 0.3)) / (n - 1)))) for i in range(1, n - 1)] + \
+           [float('%.4g' % (y0 * 10 ** span))]
+
+
+def make_names(case):
+    """the model-name array the table holds: names may carry leading / trailing blanks, be padded to a fixed width,
+    or be bytes - they must come back unchanged"""
+    st = case.get('name_style', 'plain')
+    names = case['names']
+    if st == 'trail':
+        return np.array([n + ' ' * (1 + i % 3) for i, n in enumerate(names)])
+    if st == 'lead':
+        return np.array([' ' + n for n in names])
+    if st == 'both':
+        return np.array(['  ' + n + ' ' for n in names])
+    if st == 'str_pad':
+        return np.array([n.ljust(20) for n in names], dtype='U20')
+    if st == 'bytes_pad':
+        return np.array([n.ljust(20).encode() for n in names], dtype='S20')
+    if st == 'bytes':
+        return np.array([n.encode() for n in names])
+    return np.array(names)
 
 
 def gen_flux_units(rng, differ=False):
@@ -148,6 +181,10 @@ def gen_conv(rng, directed=None):
         n_ap = max(n_ap, 2); kinds = []
     elif directed == 'conv_units_differ':
         n_ap = max(n_ap, 2); ru = tu; kinds = ['first', 'inside', 'knot', 'above']
+    elif directed == 'conv_huge':
+        n_ap = max(n_ap, 3); ru = tu; kinds = ['first', 'inside', 'knot', 'last', 'above']
+    elif directed == 'conv_names':
+        n_ap = rng.choice([1, max(n_ap, 2)])
     nm = rng.randint(1, 6)
     aps = gen_aps(rng, n_ap, tu)
     if kinds is None:
@@ -159,12 +196,16 @@ def gen_conv(rng, directed=None):
     while len(set(names)) < nm:
         names = ['mod_%d' % rng.randrange(10000) for _ in range(nm)]
     mono = rng.random() < 0.5
+    huge = directed == 'conv_huge' or (directed is None and rng.random() < 0.12)
     flux = []
     for _ in range(nm):
         row = [nice(rng, 1e-3, 1e3, 4) for _ in range(n_ap)]
-        flux.append(sorted(row) if mono else row)
+        flux.append(growth_row(rng, n_ap) if huge else sorted(row) if mono else row)
     err = [[float('%.3g' % (f * rng.uniform(0, 0.3))) for f in row] for row in flux]
-    return dict(kind='conv', aps=aps, no_aps=no_aps, tab_unit=tu, req_unit=ru, req=req, names=names,
+    name_style = {'conv_names': rng.choice(NAME_STYLES[1:])}.get(directed) or \
+        ('plain' if (directed or rng.random() < 0.5) else rng.choice(NAME_STYLES))
+    return dict(kind='conv', aps=aps, no_aps=no_aps, tab_unit=tu, req_unit=ru, req=req, names=names, name_style=name_style,
+                huge=huge,
                 wav=nice(rng, 0.3, 500., 3), flux=flux, err=err, **gen_flux_units(rng, directed == 'conv_units_differ'))
 
 
@@ -198,6 +239,9 @@ def gen_sed(rng, directed=None):
         n_ap = max(n_ap, 2); kinds = []
     elif directed == 'sed_units_differ':
         n_ap = max(n_ap, 2)
+    elif directed == 'sed_huge':
+        n_ap = max(n_ap, 3); kinds = ['first', 'inside', 'first', 'last', 'above']
+        ru = rng.choice(['bare', 'bare', tu, rng.choice(UNIT_NAMES)])
     nw = rng.randint(1, 6)
     aps = gen_aps(rng, n_ap, tu)
     if kinds is None:
@@ -209,7 +253,11 @@ def gen_sed(rng, directed=None):
     if rng.random() < 0.5:
         wavs = wavs[::-1]
     flux = [[nice(rng, 1e-3, 1e3, 4) for _ in wavs] for _ in range(n_ap)]
-    return dict(kind='sed', aps=aps, no_aps=no_aps, tab_unit=tu, req_unit=ru, req=req, wavs=wavs, flux=flux,
+    huge = directed == 'sed_huge' or (directed is None and rng.random() < 0.15)
+    if huge:
+        cols = [growth_row(rng, n_ap) for _ in wavs]
+        flux = [[cols[i][a] for i in range(len(wavs))] for a in range(n_ap)]
+    return dict(kind='sed', huge=huge, aps=aps, no_aps=no_aps, tab_unit=tu, req_unit=ru, req=req, wavs=wavs, flux=flux,
                 **gen_flux_units(rng, directed == 'sed_units_differ'))
 
 
@@ -238,6 +286,8 @@ def gen_var(rng, directed=None, tu=None):
         tu = rng.choice(['pc', 'cm', 'm', 'km'])
     elif directed == 'var_single_filter':
         n_ap = max(n_ap, 2); nf = 1
+    elif directed == 'var_huge':
+        n_ap = max(n_ap, 3); nf = max(nf, 2); kinds = ['first'] + ['inside'] * (nf - 1)
     # `aps` are the AU numbers the code derives (`self.apertures.to(u.au).value`); `aps_stored` what the SED holds
     stored = gen_aps(rng, n_ap, tu)
     aps = stored if tu == 'au' else [float(v) for v in (np.array(stored) * UNITS[tu]).to(u.au).value]
@@ -258,6 +308,9 @@ def gen_var(rng, directed=None, tu=None):
     if rng.random() < 0.5:
         sw = sw[::-1]
     flux = [[nice(rng, 1e-3, 1e3, 4) for _ in sw] for _ in range(n_ap)]
+    if directed == 'var_huge' or (directed is None and rng.random() < 0.1):
+        cols = [growth_row(rng, n_ap) for _ in sw]
+        flux = [[cols[i][a] for i in range(len(sw))] for a in range(n_ap)]
     return dict(kind='var', aps=aps, aps_stored=stored, var_unit=tu, no_aps=(n_ap == 1 and rng.random() < 0.5),
                 wavs=sw, flux=flux, fw=fw, fa=fa, **gen_flux_units(rng, directed == 'var_units_differ'))
 
@@ -270,6 +323,7 @@ DIRECTED = [('conv', d) for d in ['conv_inside', 'conv_knot', 'conv_above', 'con
             ['var_on_min'] * 8 + ['var_knot_other_unit'] * 8] + \
            [('conv', d) for d in ['conv_knot_other_unit'] * 12 + ['conv_empty'] + ['conv_units_differ'] * 4] + \
            [('sed', 'sed_units_differ'), ('var', 'var_units_differ')] + \
+           [('conv', d) for d in ['conv_huge'] * 4 + ['conv_names'] * 8] + [('sed', 'sed_huge')] * 8 + [('var', 'var_huge')] * 3 + \
            [('sed', d) for d in ['sed_knot_other_unit'] * 12 + ['sed_empty']] + \
            [('hist', d) for d in ['h_error', 'h_flux', 'h_both', 'h_aps', 'h_aps_only', 'h_repeat', 'h_long'] * 2] + \
            [('shist', d) for d in ['sh_interp', 'sh_var', 'sh_mixed']]
@@ -315,15 +369,36 @@ def read_rows(t):
     return [t.rats() for _ in range(n)]
 
 
-def cmp_matrix(impl, model, what, mags):
-    """mags[i]: largest tabulated magnitude entering row i; linear interpolation between values of very
-    different size cancels, so the rounding budget is 1e-9 relative + 1e-12 x that magnitude"""
+def bracket_mags(aps, row, xs):
+    """for every request the largest magnitude among the tabulated values that can enter its linear interpolation
+    (the bracketing knots; on a knot also its neighbours)"""
+    out = []
+    n = len(aps)
+    for x in xs:
+        x = min(max(x, aps[0]), aps[-1])
+        k = max(0, min(n - 2, max(i for i in range(n) if aps[i] <= x)))
+        idx = {k, min(k + 1, n - 1)}
+        if x == aps[k] and k > 0:
+            idx.add(k - 1)
+        out.append(max(abs(row[i]) for i in idx))
+    return out
+
+
+def cmp_matrix(impl, model, what, mags, exact=None):
+    """mags[i][j]: largest tabulated magnitude entering cell (i, j); linear interpolation between values of very
+    different size cancels, so the rounding budget is 1e-9 relative + 1e-12 x that magnitude.
+    exact[i][j] (optional): the tabulated float that must come back bit for bit (a request on the smallest
+    tabulated radius - where the code interpolates with weight exactly 0 - or a repeated single aperture)"""
     impl = np.asarray(impl, dtype=float)
     if impl.shape != (len(model), len(model[0]) if model else 0) and not (len(model) == 0 and impl.size == 0):
         return '%s: shape %r, model shape (%d, %d)' % (what, impl.shape, len(model), len(model[0]) if model else 0)
     for i, row in enumerate(model):
         for j, v in enumerate(row):
-            if not common.close(impl[i, j], v, TOL, scale=1e-3 * mags[i]):
+            m = mags[i][j] if isinstance(mags[i], (list, tuple)) else mags[i]
+            if exact is not None and exact[i][j] is not None and float(impl[i, j]) != exact[i][j]:
+                return '%s[%d][%d]: impl %r, tabulated value %r expected exactly (request on the smallest tabulated radius)' \
+                    % (what, i, j, float(impl[i, j]), exact[i][j])
+            if not common.close(impl[i, j], v, TOL, scale=1e-3 * m):
                 return '%s[%d][%d]: impl %r, expected %r' % (what, i, j, float(impl[i, j]), float(v))
     return None
 
@@ -344,7 +419,7 @@ def make_conv(case):
     from sedfitter.convolved_fluxes import ConvolvedFluxes
     nm = len(case['names'])
     c = ConvolvedFluxes()
-    c.model_names = np.array(case['names'])
+    c.model_names = make_names(case)
     if not case['no_aps']:
         c.apertures = np.array(case['aps'], dtype=float) * UNITS[case['tab_unit']]
     c.central_wavelength = case['wav'] * u.micron
@@ -389,6 +464,7 @@ def run_conv(case, c=None):
         req_q = req_q.to(ru)
         branches.add('conv_other_unit')
     req_t = [float(v) for v in req_q.to(tu).value]     # what interp1d receives
+    req_raw = list(req_t)
     if ru is not tu:
         if any(x in (aps[0], aps[-1]) for x in case['req']) and len(aps) >= 2:
             branches.add('conv_knot_other_unit')
@@ -421,8 +497,14 @@ def run_conv(case, c=None):
                       'knot, linear inside, largest-aperture value above)' % (what, impl_err), branches, True
     wav = t.rat(); nn = t.nat(); names = [t.tok() for _ in range(nn)]
     m_aps = t.rats(); m_flux = read_rows(t); m_err = read_rows(t)
-    if [str(x) for x in out.model_names] != names:
-        return False, 'model names / order changed: %r vs %r' % (list(out.model_names), names), branches, True
+    exp_names = make_names(case)
+    if case.get('name_style', 'plain') != 'plain':
+        branches.add('conv_names_blank_or_bytes')
+    got_names = np.asarray(out.model_names)
+    if got_names.shape != exp_names.shape or got_names.dtype.kind != exp_names.dtype.kind or \
+            [x for x in got_names.tolist()] != [x for x in exp_names.tolist()] or nn != len(case['names']):
+        return False, '%s: model names / order changed: returned %r, the table holds %r' % (
+            what, got_names.tolist(), exp_names.tolist()), branches, True
     if float(out.central_wavelength.to(u.micron).value) != float(wav):
         return False, 'central wavelength changed: %r vs %r' % (out.central_wavelength, float(wav)), branches, True
     if case.get('flux_unit', 'mJy') != case.get('err_unit', 'mJy') and not single:
@@ -435,9 +517,20 @@ def run_conv(case, c=None):
             what, getattr(out.flux, 'unit', None), getattr(out.error, 'unit', None), case.get('flux_unit', 'mJy'),
             case.get('err_unit', 'mJy'), e), branches, True
     what = what + ', flux in %s, error in %s' % (case.get('flux_unit', 'mJy'), case.get('err_unit', 'mJy'))
+    if case.get('huge') and not single:
+        branches.add('conv_huge_range')
+    on_first = [(not single) and x <= aps[0] for x in req_raw]
+    if any(on_first):
+        branches.add('conv_first_knot_exact')
     for impl, model, what2, tabv in ((got_flux, m_flux, 'flux', case['flux']),
                                      (got_err, m_err, 'error', case['err'])):
-        d = cmp_matrix(impl, model, what2, [max(abs(v) for v in row) for row in tabv])
+        if single:
+            mags = [[abs(row[0])] * len(req_t) for row in tabv]
+            exact = [[float(row[0])] * len(req_t) for row in tabv]
+        else:
+            mags = [bracket_mags(aps, row, req_t) for row in tabv]
+            exact = [[float(row[0]) if f else None for f in on_first] for row in tabv]
+        d = cmp_matrix(impl, model, what2, mags, exact)
         if d:
             return False, '%s: %s' % (what, d), branches, True
     got_aps = out.apertures.to(tu).value
@@ -478,6 +571,7 @@ def run_sed(case, s=None):
         passed = req_q.to(UNITS[case['req_unit']])
         req_au = [float(v) for v in passed.to(u.au).value]
         branches.add('sed_quantity')
+    req_raw = list(req_au)      # the AU numbers the code sees (before the knot snapping done for the model)
     single = len(case['aps']) == 1
     if case.get('flux_unit', 'mJy') != 'mJy' or case.get('err_unit', 'mJy') != case.get('flux_unit', 'mJy'):
         branches.add('sed_flux_other_unit')
@@ -504,8 +598,19 @@ def run_sed(case, s=None):
         return ok, detail, branches, viol
     if impl_err is not None:
         return False, '%s: raised %s although no radius is below the table' % (what, impl_err), branches, True
-    mags = [max(abs(case['flux'][a][i]) for a in range(len(case['flux']))) for i in range(len(case['wavs']))]
-    d = cmp_matrix(np.asarray(getattr(out, 'value', out), dtype=float), read_rows(t), 'flux[wavelength][request]', mags)
+    cols = [[case['flux'][a][i] for a in range(len(case['flux']))] for i in range(len(case['wavs']))]
+    if single:
+        mags = [[abs(col[0])] * len(req_au) for col in cols]
+        exact = [[float(col[0])] * len(req_au) for col in cols]
+    else:
+        if case.get('huge'):
+            branches.add('sed_huge_range')
+        on_first = [x <= aps_au[0] for x in req_raw]
+        if any(on_first):
+            branches.add('sed_first_knot_exact')
+        mags = [bracket_mags(aps_au, col, req_au) for col in cols]
+        exact = [[float(col[0]) if f else None for f in on_first] for col in cols]
+    d = cmp_matrix(np.asarray(getattr(out, 'value', out), dtype=float), read_rows(t), 'flux[wavelength][request]', mags, exact)
     if d:
         return False, '%s: %s' % (what, d), branches, True
     return True, '', branches, None
@@ -562,7 +667,7 @@ def run_var(case, s=None):
                 col = [case['flux'][a][i] for a in range(len(aps))]
                 tg, tt = ask_value('interp1 %s %s %s' % (rats(aps), rats(col), rat(fa[j])))
                 rhs = tt.rat()
-                if not common.close(got[i], rhs, TOL, scale=1e-3 * max(abs(v) for v in col)):
+                if not common.close(got[i], rhs, TOL, scale=1e-3 * bracket_mags(aps, col, [fa[j]])[0]):
                     return False, '%s: at filter wavelength %r (aperture %r AU) impl %r, linear interpolant of the SED at ' \
                                   'that aperture %r; fluxes over apertures %r' \
                         % (what, w, fa[j], float(got[i]), float(rhs), col), branches, True
@@ -668,7 +773,7 @@ def gen_shist(rng, directed=None):
 
 def run_hist(case):
     branches = set()
-    state = {k: case[k] for k in ('aps', 'no_aps', 'tab_unit', 'req_unit', 'names', 'wav', 'flux', 'err', 'flux_unit', 'err_unit')
+    state = {k: case[k] for k in ('aps', 'no_aps', 'tab_unit', 'req_unit', 'names', 'wav', 'flux', 'err', 'flux_unit', 'err_unit', 'name_style')
              if k in case}
     c = make_conv(state)
     tu = UNITS[state['tab_unit']]
@@ -795,7 +900,7 @@ def direct_check(case):
             tu, ru = UNITS[case['tab_unit']], UNITS[case['req_unit']]
             nm = len(case['names'])
             c = ConvolvedFluxes()
-            c.model_names = np.array(case['names'])
+            c.model_names = make_names(case)
             c.apertures = np.array(case['aps'], dtype=float) * tu
             c.central_wavelength = case['wav'] * u.micron
             c.flux = np.array(case['flux'], dtype=float).reshape(nm, -1) * funit(case)
